@@ -134,6 +134,12 @@ def run():
                 a, b = b, a
             if r.random() < 0.3:
                 a, b = [a, 1], [b, 1]
+        elif c < 0.27:
+            # two (similar) strings trade places: the same pair of texts is edited in BOTH directions within one comparison
+            x, y = r.choice((("alpha", "beta!"), ("graphtage", "graphtage 2"), ("abcabc", "bcabca"), ("x", "xyz"), ("left", "lift")))
+            a, b = {"first": x, "second": y}, {"first": y, "second": x}
+            if r.random() < 0.5:
+                a, b = [x, y, 1], [y, x, 1]
         elif c < 0.33:
             # EQUAL container siblings (rows / records that occur twice), an earlier one edited in place, a later one left
             # alone or edited differently: per-node state shared between equal siblings would show in the rendering
@@ -163,6 +169,8 @@ def run():
         opts = r.choice(docs.ALL_OPTS)
         jl, jd = r.choice([(False, False), (True, True), (True, False), (False, True)])
         jobs.append((a, b, opts, jl, jd))
+        if i % 10 == 9:
+            jobs.append((b, a, opts, jl, jd))        # the same comparison in the opposite direction, right afterwards
     ctx = mp.get_context("fork")
     with ctx.Pool(min(16, os.cpu_count() or 4), initializer=_init, maxtasksperchild=300) as pool:
         results = pool.map(_job, jobs, chunksize=4)
